@@ -143,7 +143,10 @@ class C13(object):
                    "out-of-range indexing of stack arrays is not visible to the access callbacks"]
 
     def prepare(self, ctx):
-        enginea.prepare_sim(ctx)
+        enginea.prepare_sim(ctx, import_imaged11=True)
+        from ImageD11 import sparseframe
+        import h5py
+        self.sf, self.h5py = sparseframe, h5py
 
     # ------------------------------------------------------------ generation
     def gen(self, rs, ctx):
@@ -154,6 +157,21 @@ class C13(object):
         else:
             ns, nf = rnd.choice([3, 3, 4, 5, 6, 8, 12, 17, 24]), rnd.choice([3, 4, 5, 7, 9, 14, 16, 25])
         variant = "sparse" if rnd.random() < 0.2 else "dense"
+        if rnd.random() < 0.06:
+            # a scan of several frames through sparseframe.SparseScan.lmlabel: the work buffers of one frame are the
+            # previous content for the next one
+            nfr = rnd.randint(2, 6)
+            frames = []
+            for _ in range(nfr):
+                im = make_image(rnd, ns, nf, rnd.choice(KINDS))
+                g = np.random.default_rng(rnd.getrandbits(48))
+                m = g.random((ns, nf)) < rnd.choice([0.0, 0.1, 0.5, 0.9])
+                if rnd.random() < 0.3:
+                    m[0, 0] = True  # first stored pixel is (often) a local maximum of its own
+                r, c = np.nonzero(m)
+                frames.append({"row": r.tolist(), "col": c.tolist(), "val": [float(x) for x in im[m]]})
+            return {"entry": "SparseScan.lmlabel", "ns": ns, "nf": nf, "kind": "scan", "frames": frames,
+                    "countall": rnd.random() < 0.5, "cfg": enginea.draw_cfg(rnd, max_team=1), "gstyle": 0}
         kind = rnd.choice(KINDS)
         im = make_image(rnd, ns, nf, kind)
         cfg = enginea.draw_cfg(rnd, max_team=64)
@@ -179,6 +197,9 @@ class C13(object):
 
     def describe(self, desc):
         d = {k: desc[k] for k in ("entry", "ns", "nf", "kind", "cfg")}
+        if "frames" in desc:
+            d["frames_nnz"] = [len(f["val"]) for f in desc["frames"]]
+            return d
         if "image" in desc:
             d["image_first_row"] = desc["image"][:desc["nf"]]
         else:
@@ -186,7 +207,64 @@ class C13(object):
         return d
 
     # ------------------------------------------------------------ execution
+    def exec_scan(self, desc, ctx):
+        sim = ctx.sim
+        cfg = desc["cfg"]
+        frames = desc["frames"]
+        p = os.path.join(ctx.scratch, "c13_scan_%d.h5" % os.getpid())
+        if os.path.exists(p):
+            os.remove(p)
+        with self.h5py.File(p, "w") as h:
+            grp = h.create_group("1.1")
+            grp.attrs["nframes"], grp.attrs["shape0"], grp.attrs["shape1"] = len(frames), desc["ns"], desc["nf"]
+            grp["row"] = np.concatenate([np.array(f["row"], np.uint16) for f in frames])
+            grp["col"] = np.concatenate([np.array(f["col"], np.uint16) for f in frames])
+            grp["intensity"] = np.concatenate([np.array(f["val"], np.float32) for f in frames])
+            grp["nnz"] = np.array([len(f["val"]) for f in frames], np.int32)
+        enginea.apply_cfg(sim, cfg, strict=0, track_conflicts=0, step_cap=4000000000)
+        sim.begin_run()
+        viol = None
+        try:
+            import io, contextlib
+            with contextlib.redirect_stdout(io.StringIO()):
+                sc = self.sf.SparseScan(p, "1.1")
+                sc.lmlabel(smooth=False, countall=desc["countall"])
+        except Exception as e:
+            viol = {"class": "raises", "key": "SparseScan.lmlabel:raises", "detail": "%s: %s" % (type(e).__name__, e)}
+        st = sim.stats()
+        lab_all = None
+        if viol is None:
+            off, pos = 0, 0
+            lab_all = np.asarray(sc.labels)
+            for k, f in enumerate(frames):
+                n = len(f["val"])
+                if n == 0:
+                    if sc.nlabels[k] != 0:
+                        viol = {"class": "count-differs", "key": "SparseScan.lmlabel:count-differs", "detail": "empty frame %d has %d labels" % (k, sc.nlabels[k])}
+                    continue
+                ref, nmax = ref_sparse(np.array(f["row"]), np.array(f["col"]), np.array(f["val"], np.float32))
+                got = lab_all[pos:pos + n] - off
+                if sc.nlabels[k] != nmax:
+                    viol = {"class": "count-differs", "key": "SparseScan.lmlabel:count-differs",
+                            "detail": "frame %d of %d: %d labels reported, the frame has %d local maxima (work buffers are reused from frame to frame)" %
+                                      (k, len(frames), sc.nlabels[k], nmax)}
+                    break
+                if not np.array_equal(got, ref):
+                    viol = {"class": "labels-differ", "key": "SparseScan.lmlabel:labels-differ",
+                            "detail": "frame %d of %d: labels differ from steepest ascent on that frame" % (k, len(frames))}
+                    break
+                pos += n
+                if desc["countall"]:
+                    off += nmax
+        meas = enginea.run_measures(st, cfg)
+        meas["variant"] = {"SparseScan.lmlabel": 1}
+        meas["image_kind"] = {"scan": 1}
+        return {"digest": enginea.sha(st["digest"], lab_all), "sig": enginea.sha(repr(frames)), "nontrivial": True,
+                "viol": viol, "measures": meas}
+
     def execute(self, desc, ctx, want_switches=False):
+        if desc["entry"] == "SparseScan.lmlabel":
+            return self.exec_scan(desc, ctx)
         sim = ctx.sim
         cfg = desc["cfg"]
         entry = desc["entry"]
